@@ -158,7 +158,9 @@ def C16(tier, rng):
         ty = rng.choice([SVCB, HTTPS])
         ps = [rand_param(rng, rng.choice(kinds)) for _ in range(rng.choice([0, 1, 2, 3, 5, 9]))]
         given = list(ps)
-        rr = {'ty': ty, 'name': rand_name(rng), 'ttl': bnum(rng, 4), 'cls': 1, 'prio': rng.choice([1, 1, 65535, 2]), 'target': rand_name(rng), 'params': given}
+        # C16 is not about names: lower-case ones only, so that a different (legal) compression policy does not show here
+        lc = lambda n: tuple(lower_label(l) for l in n)
+        rr = {'ty': ty, 'name': lc(rand_name(rng)), 'ttl': bnum(rng, 4), 'cls': 1, 'prio': rng.choice([1, 1, 65535, 2]), 'target': lc(rand_name(rng)), 'params': given}
         exp = dict(rr, params=[('mandatory', sorted(p[1])) if p[0] == 'mandatory' else p for p in dedup_first(given)])
         cs.append(Case('enc.rr %s' % prr(rr), 'enc-svcb', exp=('RR', lower_text(prr(exp)))))
     cs += svcb_alias_param_cases()
